@@ -75,7 +75,7 @@ TRIAGE_RULES = [
     ("rustemo::glr::parser::GlrParser::find_reduction_paths/debug_assert/*", INV, "ReductionStart::Node is built iff length == 0 at all construction sites (C03-R3)"),
     ("rustemo::glr::parser::GlrParser::find_reduction_paths/overflow-sub/*", INV, "Edge-based reductions have length >= 1 (C03-R3)"),
     ("rustemo::glr::parser::GlrParser::create_forest/refcell/*", INV, "shared borrow after parsing finished"),
-    ("rustemo::glr::parser::GlrParser::make_error/unwrap/*", INV, "the frontier loop runs at least once and records a non-empty base (C12-R4)"),
+    ("rustemo::glr::parser::GlrParser::make_error/unwrap/*", INV, "the frontier loop runs at least once and records a non-empty base (decided by C15-R9)"),
     # ---- GSS / forest
     ("rustemo::glr::gss::GssGraph::*/unwrap/*", INV, "node/edge indices are produced by the same graph and nothing is ever removed from it (C15-R2f: no remove_* call)"),
     ("rustemo::glr::gss::GssGraph::add_solution/refcell/*", INV, "temporary borrow_mut, no other borrow live"),
@@ -658,6 +658,121 @@ def r7_recursive_drop(F, res):
                               len(handles.get(r, []))), ss[0][2])
 
 
+TOKEN_PIPELINE = (r"^<rustemo::lexer::TokenIterator<.*> as core::iter::traits::iterator::Iterator>::next$",
+                  r"^<rustemo::lexer::StringLexer<.*> as rustemo::lexer::Lexer<.*>>::next_tokens$",
+                  r"^rustemo::lr::parser::LRParser::<[^>]*>::next_token$",
+                  rt.GLR + "find_lookaheads$")
+
+
+def r8_empty_token_progress(ctx, F, res):
+    """A shift moves the position by the length of the token's text: a content token that matched the EMPTY string moves
+    nothing, the same state asks the lexer again at the same place and gets the same token - the LR loop and the GLR
+    frontier loop never end (`A: /a*/;` under repetition, input `b`). Somewhere between the recogniser's answer and the
+    shift an empty match has to be turned away (STOP is the one token that is empty by right)."""
+    from . import gen, idiom
+    rid = res.rule("C15-R8", "a content token that matched the empty string is turned away before it can be shifted (in the generated "
+                   "recogniser, the token iterator, the lexer or the token fetch of either parser): otherwise the parser does not "
+                   "move and never returns", floor=1)
+    guards = []
+    seen = 0
+    def about_token_text(c):
+        return mir.has_call(c, "recognize") or mir.contains(c, lambda x: isinstance(x, tuple) and (
+            (x[0] == "field" and x[2] == "value" and str(x[3]).endswith("Token")) or (x[0] in ("var", "param") and str(x[1]) in ("recognized", "x_str"))))
+    for pat in TOKEN_PIPELINE:
+        try:
+            fn = F.one(pat)
+        except Exception:      # noqa
+            continue
+        seen += 1
+        for h in [fn] + F.all_nested_closures(fn):
+            try:
+                paths = Sim(h, F, max_paths=100000).run()
+            except Exception:      # noqa
+                continue
+            for p in paths:
+                for t, v in p.cond:
+                    r = idiom.emptiness(t, v)
+                    if r and about_token_text(r[0]):
+                        # a comparison of a token length with another token's length (longest match) is not this
+                        guards.append("%s (%s)" % (mir.short(mir.strip_generics(fn.path)), fn.file))
+    ngen = 0
+    for g in gen.load_set(ctx.dir("gen-functions")):
+        if g.parse_error:
+            continue
+        im = g.impl("TokenRecognizerT<", "TokenRecognizer")
+        f = [x for x in (im or {}).get("items", []) if x.get("ident") == "recognize"]
+        if not f:
+            continue
+        ngen += 1
+        body = gen.flat(f[0]["body"]).replace(" ", "")
+        # the arm of the regex recogniser (the Stop arm tests the INPUT for emptiness, which is something else)
+        i = body.find("Recognizer::RegexMatch(")
+        arm = body[i:] if i >= 0 else ""
+        if re.search(r"(x_str|x\.as_str\(\)|x|m|mat)\.(is_empty\(\)|len\(\)(>0|==0|!=0|>=1)|end\(\)(>0|==0|!=0))", arm):
+            guards.append("generated recogniser of %s" % (g.name or ""))
+    if seen < 3 or not ngen:
+        res.anchor_lost(rid, "token pipeline not found (%d of 4 runtime functions, %d generated recognisers)" % (seen, ngen))
+    elif guards:
+        res.ok(rid, "empty-token-progress", None, "empty matches are tested in %s" % sorted(set(guards))[:3])
+    else:
+        res.violation(rid, "empty-token-progress", "nothing between TokenRecognizer::recognize and the shift tests the matched text for "
+                      "emptiness (%d runtime functions of the token pipeline and %d generated recognisers read): a regex or string "
+                      "terminal that matches the empty string is shifted without moving the position, and the parser asks for the "
+                      "same token for ever" % (seen, ngen), "rustemo/src/lexer.rs")
+
+
+def r9_error_base(F, res, rid=None):
+    """GlrParser::make_error reads the first head of `last_frontier_base` (`expect("There must be a head ..")`): the census
+    row for that site says "the frontier loop records a non-empty base before it is left". This rule is that sentence,
+    decided: a forward analysis over the CFG of parse_with_context with sets of abstract states (rules/absint.py; Vec locals
+    empty / non-empty / unknown, branches on is_empty() refine, no join at the loop head) - every state that reaches the
+    call passes a base that is non-empty."""
+    from . import absint
+    rid = rid or res.rule("C15-R9", "GlrParser::make_error is never handed an empty frontier base (its first head is unwrapped): every "
+                          "abstract state reaching the call has `last_frontier_base` non-empty (loop invariant by abstract "
+                          "interpretation of Vec emptiness)", floor=1)
+    try:
+        fn = F.one(r"^<rustemo::glr::parser::GlrParser<.*> as rustemo::parser::Parser<.*>>::parse_with_context$")
+    except Exception:      # noqa
+        res.anchor_lost(rid, "GlrParser::parse_with_context not found")
+        return
+    sites = [(bi, tm) for bi, tm in fn.calls() if mir.strip_generics(callee(tm) or "").endswith("::make_error")]
+    if not sites:
+        res.anchor_lost(rid, "call of make_error not found in GlrParser::parse_with_context", fn.loc())
+        return
+    try:
+        A = absint.VecEmptiness(fn).run()
+    except Exception as e:      # noqa
+        res.undecided(rid, "abstract interpretation of parse_with_context failed: %s: %s" % (type(e).__name__, e), fn.loc())
+        return
+    callee_fn = F.fns.get(callee(sites[0][1]))
+    # which argument is the base: the Vec<NodeIndex> parameter of make_error
+    argi = None
+    for i, a in enumerate(sites[0][1].get("args", [])):
+        l = A._arg_local(a)
+        if l is not None and (l in A.vecs or (l < len(A.tys) and "Vec<" in A.tys[l])):
+            argi = i
+    if argi is None:
+        res.undecided(rid, "make_error takes no Vec argument any more", fn.loc())
+        return
+    for bi, tm in sites:
+        vals = A.arg_states(bi, argi)
+        where = "%s:%s" % (fn.file, tm.get("line"))
+        if not A.complete or not vals:
+            res.undecided(rid, "the analysis did not reach the make_error call (%d states, complete=%s)" % (len(vals), A.complete), where)
+        elif any(v == "E" for v in vals):
+            res.violation(rid, "error-base-non-empty", "make_error can be called with an EMPTY frontier base (%d of %d abstract states "
+                          "reaching the call): its `expect(\"There must be a head in the last frontier!\")` panics instead of the "
+                          "parser returning Err - e.g. when nothing can be shifted from the start state" % (
+                              sum(1 for v in vals if v == "E"), len(vals)), where)
+        elif all(v == "N" for v in vals):
+            res.ok(rid, "error-base-non-empty", where, "%d abstract state(s) reach the call, the base is non-empty in each (%d state/"
+                   "block pairs explored)" % (len(vals), A.pairs))
+        else:
+            res.undecided(rid, "the base handed to make_error is not known to be non-empty in %d of %d abstract states (built by "
+                          "something the analysis does not model)" % (sum(1 for v in vals if v is None), len(vals)), where)
+
+
 def r6_generated_recognizers(ctx, res):
     """The generated recogniser runs on every token attempt with text the user controls: it answers Some/None and never
     unwraps what the regex engine returns (fancy-regex answers Err on its backtrack limit)."""
@@ -698,6 +813,8 @@ def run(ctx, res):
     r4_error_cells(ctx, res)
     r5_no_forest_traversal(F, res)
     r6_generated_recognizers(ctx, res)
+    r8_empty_token_progress(ctx, F, res)
+    r9_error_base(F, res)
     from . import controls
     controls.run(ctx, res, "C15")
     res.extra.update({"obligations": stats["sites"], "discharged": stats["sites"] - stats["new"] - stats["finding"],
